@@ -642,4 +642,127 @@ Section CrashProofs.
       destruct (before a b) eqn:E1; [|reflexivity]. destruct (S b) eqn:E2; [|reflexivity].
       cbn. rewrite (H a b E1 E2). reflexivity.
   Qed.
+
+  (** * The judge's predicate on the model's own experiment is exactly [Good] *)
+  Lemma lobs_eqb_refl x : lobs_eqb x x = true.
+  Proof.
+    unfold lobs_eqb. rewrite !N.eqb_refl, !andb_true_r.
+    apply andb_true_iff. split; [apply obs_eqb_spec; reflexivity|apply nlist_eqb_spec; reflexivity].
+  Qed.
+
+  Lemma links_b_last_false hs : forall prev h x, ho_full x = RFail ->
+    links_b hash_hdr root prev h (hs ++ [x]) = false.
+  Proof.
+    induction hs as [|a r IH]; intros prev h x Hx; cbn [app links_b].
+    - unfold link_ok_b. rewrite Hx. reflexivity.
+    - rewrite (IH _ _ _ Hx). apply andb_false_r.
+  Qed.
+
+  Lemma firstn_snoc_nth {A} (l : list A) : forall k x, nth_error l k = Some x -> firstn (S k) l = firstn k l ++ [x].
+  Proof.
+    induction l as [|a r IH]; intros k x H; [destruct k; discriminate|].
+    destruct k; cbn in *; [inversion H; reflexivity|]. f_equal. apply IH. exact H.
+  Qed.
+
+  Lemma nth_error_nseq n k : (k < n)%nat -> nth_error (nseq n) k = Some (N.of_nat k).
+  Proof.
+    intro H. unfold nseq. rewrite nth_error_map.
+    assert (nth_error (seq 0 n) k = Some k) as ->; [|reflexivity].
+    rewrite (nth_error_nth' _ 0%nat) by (rewrite seq_length; exact H). rewrite seq_nth by exact H. reflexivity.
+  Qed.
+
+  Lemma consistent_b_head_unreadable U l :
+    (1 <= N.to_nat (height l) <= u_kh U)%nat -> get_block (chain_view l) (height l) true = RFail ->
+    consistent_b hash_hdr root (observe_ledger U l) = false.
+  Proof.
+    intros [H1 H2] Hg. unfold consistent_b, observe_ledger. cbn [lo_chain].
+    assert (chain_inv_b hash_hdr root (observe cfg_fixed U (chain_view l)) = false) as ->; [|reflexivity].
+    unfold chain_inv_b, observe. cbn [o_meta o_heights get_chain_meta chain_view cl_mem].
+    fold (height l). set (n := N.to_nat (height l)) in *.
+    assert (Hn : nth_error (tl (map (observe_h cfg_fixed (chain_view l)) (nseq (S (u_kh U))))) (n - 1)
+                 = Some (observe_h cfg_fixed (chain_view l) (height l))).
+    { unfold nseq. cbn [seq map tl]. rewrite !nth_error_map.
+      assert (nth_error (seq 1 (u_kh U)) (n - 1) = Some n) as ->.
+      { rewrite (nth_error_nth' _ 0%nat) by (rewrite seq_length; lia). rewrite seq_nth by lia. f_equal. lia. }
+      cbn [option_map]. unfold n. rewrite N2Nat.id. reflexivity. }
+    replace n with (S (n - 1)) at 2 by lia. rewrite (firstn_snoc_nth _ _ _ Hn).
+    rewrite links_b_last_false by (unfold observe_h; cbn [ho_full]; exact Hg).
+    rewrite andb_false_r. reflexivity.
+  Qed.
+
+  Lemma entries_of_last_state bs b :
+    tget (entries_of (bs ++ [b])) (tlen (bs ++ [b])) =
+    Some (seal_at hash_hdr root sroot (tlen (entries_of bs) + 1) (cm_hash (spec_meta (entries_of bs))) (state_root_of bs) b).
+  Proof. rewrite entries_of_snoc, tget_snoc, tlen_app, entries_of_len, N.eqb_refl. reflexivity. Qed.
+
+  Lemma sane_consistent_b U bs l : sane bs l -> wf_blocks bs -> (length bs <= u_kh U)%nat ->
+    consistent_b hash_hdr root (observe_ledger U l) = true.
+  Proof.
+    intros Hs Hwf Hk. rewrite (sane_observe U bs l Hs). unfold consistent_b. cbn [lo_chain lo_version lo_root lo_data].
+    assert (Hlen : length (entries_of bs) = length bs).
+    { pose proof (entries_of_len bs) as H. unfold tlen in H. lia. }
+    rewrite (proj2 (chain_inv_b_spec hash_hdr root _)) by (apply chain_inv_expected; [apply wf_spec_entries; exact Hwf|lia]).
+    unfold expected at 1 2 3 4. cbn [o_meta]. rewrite spec_meta_height, entries_of_len, N.eqb_refl.
+    rewrite rev_length, map_length. change (N.of_nat (length bs)) with (tlen bs). rewrite N.eqb_refl, andb_true_r. cbn [andb].
+    destruct bs as [|b bs0 _] using rev_ind; [reflexivity|].
+    rewrite tlen_app. destruct (tlen bs0 + 1 =? 0) eqn:E; [lia|].
+    unfold head_state_root, expected. cbn [o_meta o_heights]. rewrite spec_meta_height, entries_of_len, tlen_app.
+    rewrite nth_error_map, nth_error_nseq by (rewrite app_length in Hk; cbn in Hk; unfold tlen; lia).
+    cbn [option_map]. rewrite N2Nat.id. unfold expected_h.
+    rewrite <- (tlen_app bs0 b), entries_of_last_state. cbn [ho_full e_blk b_hdr h_state seal_at].
+    rewrite state_root_snoc. apply N.eqb_refl.
+  Qed.
+
+  Lemma firstn_app_exact {A} (l1 l2 : list A) : firstn (length l1) (l1 ++ l2) = l1.
+  Proof. rewrite firstn_app, Nat.sub_diag, firstn_all. cbn. apply app_nil_r. Qed.
+
+  Lemma reference_sane U all k : wf_blocks all ->
+    exists lk, commit_all hash_hdr root sroot ledger_empty (firstn k all) = Some lk /\ sane (firstn k all) lk /\
+               reference hash_hdr root sroot U all k = Some (observe_ledger U lk).
+  Proof.
+    intro Hwf. assert (Hw : wf_blocks ([] ++ firstn k all)).
+    { cbn. apply (wf_blocks_app_l _ (skipn k all)). rewrite firstn_skipn. exact Hwf. }
+    destruct (commit_all_sane (firstn k all) [] ledger_empty sane_empty Hw) as [lk [E Hs]].
+    exists lk. split; [exact E|]. split; [exact Hs|]. unfold reference. rewrite E. reflexivity.
+  Qed.
+
+  Theorem experiment_judge U pre b post (S : uset) :
+    let all := pre ++ b :: post in
+    wf_blocks all -> (length all <= u_kh U)%nat ->
+    exists o, experiment hash_hdr root sroot U pre b post S = Some o /\
+              outcome_ok_b hash_hdr root (reference hash_hdr root sroot U all (length pre))
+                           (reference hash_hdr root sroot U all (Datatypes.S (length pre)))
+                           (reference hash_hdr root sroot U all (length all)) o = Good S.
+  Proof.
+    intros all Hwf Hk. subst all.
+    assert (Hall : pre ++ b :: post = (pre ++ [b]) ++ post) by (rewrite <- app_assoc; reflexivity).
+    destruct (reference_sane U (pre ++ b :: post) (length pre) Hwf) as [ln [En [Hsn Rn]]].
+    destruct (reference_sane U (pre ++ b :: post) (Datatypes.S (length pre)) Hwf) as [ln1 [En1 [Hsn1 Rn1]]].
+    destruct (reference_sane U (pre ++ b :: post) (length (pre ++ b :: post)) Hwf) as [lN [EN [HsN RN]]].
+    rewrite firstn_app_exact in *.
+    assert (F1 : firstn (Datatypes.S (length pre)) (pre ++ b :: post) = pre ++ [b]).
+    { rewrite Hall. replace (Datatypes.S (length pre)) with (length (pre ++ [b])) by (rewrite app_length; cbn; lia).
+      apply firstn_app_exact. }
+    rewrite F1 in *. rewrite firstn_all in *.
+    assert (Hwf1 : wf_blocks (pre ++ [b])) by (apply (wf_blocks_app_l _ post); rewrite <- Hall; exact Hwf).
+    assert (Hwfp : wf_blocks pre) by (apply (wf_blocks_app_l _ [b]); exact Hwf1).
+    assert (Hlen : (length pre + 1 <= u_kh U)%nat) by (rewrite app_length in Hk; cbn in Hk; lia).
+    unfold experiment, experiment_with. rewrite En. fold recover.
+    destruct (Good S) eqn:Hg.
+    - destruct (proj1 (recover_characterisation pre b post ln S Hsn Hwf) Hg) as [l' [Hr [Hc [l2 [Hcont Hs2]]]]].
+      rewrite Hr, Hcont. eexists. split; [reflexivity|].
+      unfold outcome_ok_b. cbn [oc_rec oc_obs1 oc_cont oc_obs2]. rewrite Rn, Rn1, RN. cbn [N.eqb andb].
+      rewrite (sane_same_observations U _ l2 lN Hs2 HsN). cbn [option_lobs_eqb]. rewrite lobs_eqb_refl, andb_true_r.
+      destruct Hc as [Hc|Hc].
+      + rewrite (sane_consistent_b U pre l' Hc Hwfp) by lia.
+        rewrite (sane_same_observations U _ l' ln Hc Hsn), lobs_eqb_refl. reflexivity.
+      + rewrite (sane_consistent_b U (pre ++ [b]) l' Hc Hwf1) by (rewrite app_length; cbn; lia).
+        rewrite (sane_same_observations U _ l' ln1 Hc Hsn1), lobs_eqb_refl, orb_true_r. reflexivity.
+    - destruct (recover_bad pre ln b S Hsn Hwf1 Hg) as [[Hr _]|[l' [Hr [_ [_ [_ [_ [_ [_ [Hh [_ Hgb]]]]]]]]]]]; rewrite Hr.
+      + eexists. split; [reflexivity|]. reflexivity.
+      + assert (Hcb : consistent_b hash_hdr root (observe_ledger U l') = false).
+        { apply consistent_b_head_unreadable; [|exact Hgb]. rewrite Hh. unfold tlen. lia. }
+        destruct (continue_from hash_hdr root sroot l' (pre ++ b :: post)); eexists; (split; [reflexivity|]);
+          unfold outcome_ok_b; cbn [oc_rec oc_obs1 oc_cont oc_obs2]; rewrite Hcb; reflexivity.
+  Qed.
 End CrashProofs.
